@@ -350,19 +350,11 @@ class TypeGen:
         if mixin is None:
             mixin = r.choice(self.mixins) if r.random() < self.mixin_prob else None
         bases = []
-        if self.allow_inherit and nfields is None and r.random() < 0.15:
-            # a base class with required fields; the child may override the default of the last one
-            bname = self.fresh("B")
-            bfields = [{"n": f"b{i}", "t": self.type(depth)} for i in range(r.randint(1, 2))]
-            self.fam.add({"k": "dc", "name": bname, "bases": [], "mixin": mixin, "fields": bfields}, self.value_maker)
-            bases = [bname]
-            mixin = None            # inherited from the base
-            if r.random() < 0.4:
-                last = dict(bfields[-1])
-                last["dmode"] = r.choice(["default", "factory"])
-                last["dseed"] = r.getrandbits(32)
-                fields.append(last)
-                defaults_started = True
+        if self.allow_inherit and nfields is None and with_defaults and min_required == 0 and r.random() < 0.2:
+            bases, over = self._hierarchy(depth, mixin)
+            mixin = None            # inherited from the root
+            fields.extend(over)
+            defaults_started = True
         if self.allow_inherit and r.random() < 0.08:
             # a member that is not a constructor parameter: serialized, never read from the input
             fields_tail = [{"n": "ni", "t": r.choice([("int",), ("str",), ("date",)]), "dmode": "default", "dseed": r.getrandbits(32), "init": False}]
@@ -405,6 +397,78 @@ class TypeGen:
         self._fix_defaults(d)
         self.fam.add(d, self.value_maker)
         return ("dc", name)
+
+    def _hierarchy(self, depth, mixin):
+        """ancestors of a dataclass: a root with required and defaulted fields, then a chain of one or two classes or a
+        diamond (Left(Root), Right(Root)); every ancestor may re-declare inherited defaulted fields with another default
+        (plain or through field()), turn the last required field into a defaulted one, and add defaulted fields of its
+        own.  Returns (bases of the leaf, fields the leaf itself re-declares)."""
+        r = self.rng
+        root = self.fresh("B")
+        nreq = r.randint(0, 2)
+        rfields = [{"n": f"q{i}", "t": self.type(depth)} for i in range(nreq)]
+
+        def defaulted(n, t=None, old=None):
+            if t is None:
+                t = self.type(depth)
+                if r.random() < 0.5 and t[0] not in ("opt", "none", "any"):
+                    t = ("opt", t, "Optional")
+            f = {"n": n, "t": t, "dmode": r.choice(["default", "factory"]), "dseed": r.getrandbits(32)}
+            if t[0] == "opt" and old is not None and old.get("const_default", 0) is None:
+                # inherited default None re-declared with a value
+                v = self.value_maker(t[1], f["dseed"])
+                f.update(dmode="factory" if type(v).__hash__ is None else "default", const_default=v)
+            elif t[0] == "opt" and r.random() < 0.5:
+                f.update(dmode="default", const_default=None)
+            if r.random() < 0.2:
+                f["force_field"] = True
+            return f
+        rfields += [defaulted(f"d{i}") for i in range(r.randint(1, 3))]
+        d = {"k": "dc", "name": root, "bases": [], "mixin": mixin, "fields": rfields}
+        self._fix_defaults(d)
+        self.fam.add(d, self.value_maker)
+        inherited = {f["n"]: f for f in rfields}
+
+        def redeclare(known, p):
+            out = []
+            last_req = [f for f in known.values() if not f.get("dmode")][-1:]
+            for f in list(known.values()):
+                if f.get("dmode") and r.random() < p:
+                    out.append(defaulted(f["n"], f["t"], f))
+                elif last_req and f is last_req[0] and r.random() < p / 2:
+                    out.append(defaulted(f["n"], f["t"], f))
+            return out
+
+        def middle(prefix, base, known):
+            name = self.fresh(prefix)
+            fs = redeclare(known, 0.4) + [defaulted(f"{prefix.lower()}{i}") for i in range(r.randint(0, 1))]
+            d = {"k": "dc", "name": name, "bases": [base], "mixin": None, "fields": fs}
+            self._fix_defaults(d)
+            self.fam.add(d, self.value_maker)
+            return name, fs
+        shape = r.choice(["chain1", "chain2", "chain2", "chain3", "diamond", "diamond"])
+        if shape == "chain1":
+            bases = [root]
+        elif shape in ("chain2", "chain3"):
+            name, fs = middle("M", root, inherited)
+            inherited.update({f["n"]: f for f in fs})
+            if shape == "chain3":
+                name, fs = middle("N", name, inherited)
+                inherited.update({f["n"]: f for f in fs})
+            bases = [name]
+        else:
+            lname, lfs = middle("L", root, inherited)
+            rname, rfs = middle("R", root, inherited)
+            # MRO leaf, L, R, root: a field re-declared by both comes from L
+            # (dataclasses reads each base's complete field table over the reversed MRO, so L's view - its own
+            # re-declarations or else the root's members - replaces whatever R re-declared)
+            rootd = dict(inherited)
+            inherited = dict(rootd)
+            inherited.update({f["n"]: f for f in rfs})
+            inherited.update(rootd)
+            inherited.update({f["n"]: f for f in lfs})
+            bases = [lname, rname]
+        return bases, redeclare(inherited, 0.3)
 
     def _fix_defaults(self, d):
         """unhashable defaults must be factories (dataclass rule)."""
